@@ -29,15 +29,16 @@ import (
 
 // Shapes: wallet UTXO shapes by the history that produces them.
 var Shapes = map[string][]string{
-	"one-big":         {"x.pv.900000000.0", "d"},
-	"mixed":           {"x.pv.20000.0", "d", "x.pv.1000000.1", "d", "x.pv.100000000.0", "d", "x.pv.300000000.1", "d"},
-	"immature-only":   {"x.ca", "d"},
-	"coinbase-mature": {"x.ca", "d", "x.e", "d", "x.e", "d", "x.e", "d", "x.pv.50000000.1", "d"},
-	"locked-mix":      {"x.bo", "d", "x.st", "d", "x.pv.200000000.0", "d", "x.pv.100000000.1", "d"},
-	"pending-spent":   {"x.pv.300000000.0", "d", "x.pv.100000000.1", "d", "y.sp"},
-	"two-wallets":     {"x.pv.200000000.0", "d", "x.pv.500000000.0.B", "d", "x.ab", "d"},
-	"many-small":      {"x.pm.40.1000000", "d", "x.pv.100000000.1", "d"},
-	"empty":           {},
+	"one-big":          {"x.pv.900000000.0", "d"},
+	"mixed":            {"x.pv.20000.0", "d", "x.pv.1000000.1", "d", "x.pv.100000000.0", "d", "x.pv.300000000.1", "d"},
+	"immature-only":    {"x.ca", "d"},
+	"coinbase-mature":  {"x.ca", "d", "x.e", "d", "x.e", "d", "x.e", "d", "x.pv.50000000.1", "d"},
+	"locked-mix":       {"x.bo", "d", "x.st", "d", "x.pv.200000000.0", "d", "x.pv.100000000.1", "d"},
+	"pending-spent":    {"x.pv.300000000.0", "d", "x.pv.100000000.1", "d", "y.sp"},
+	"pending-incoming": {"x.pv.300000000.0", "d", "y.in"},
+	"two-wallets":      {"x.pv.200000000.0", "d", "x.pv.500000000.0.B", "d", "x.ab", "d"},
+	"many-small":       {"x.pm.40.1000000", "d", "x.pv.100000000.1", "d"},
+	"empty":            {},
 	// added after the first round (cheap): more maturity / lock / history variety
 	"dust-and-big":    {"x.pv.1000.0", "d", "x.pv.900000000.1", "d"},
 	"reorged-away":    {"x.pv.300000000.0", "d", "x.pv.200000000.1", "d", "r.1.E", "d"},
@@ -555,6 +556,40 @@ func (r *run) sign() {
 			}
 		}
 	}
+	// spends of PENDING outputs of the wallet (C03: "confirmed or pending"): every output a
+	// relayed, still unconfirmed transaction pays to wallet A, alone and together with a
+	// confirmed coin
+	pendingOuts := 0
+	for _, ptx := range r.w.Pend.Txs {
+		for vout, o := range ptx.TxOut {
+			if addrOf(o.PkScript) != A.Addrs[0].Std && addrOf(o.PkScript) != A.Addrs[1].Std {
+				continue
+			}
+			if o.Value < 2000000 {
+				continue
+			}
+			pendingOuts++
+			ins := []*masswallet.TxIn{{TxId: ptx.TxHash().String(), Vout: uint32(vout)}}
+			h, _, err := W.CreateRawTransaction(ins, map[string]massutil.Amount{S: amt(o.Value - 1000000)}, 0, "", nil)
+			if err == nil {
+				tx, _ := decode(h)
+				W.ClearUsedUTXOMark(tx)
+				txs = append(txs, tx)
+				names = append(names, fmt.Sprintf("wallet-built spend of pending output %d of a relayed transaction", vout))
+			} else {
+				r.outc["pending-input-create-err:"+err.Error()]++
+			}
+			// the same spend written by the client itself (SignRawTransaction takes any transaction)
+			ph := ptx.TxHash()
+			raw := wire.NewMsgTx()
+			raw.Version = wire.TxVersion
+			raw.AddTxIn(wire.NewTxIn(wire.NewOutPoint(&ph, uint32(vout)), nil))
+			raw.AddTxOut(&wire.TxOut{Value: o.Value - 1000000, PkScript: r.w.SPk})
+			txs = append(txs, raw)
+			names = append(names, fmt.Sprintf("client-written spend of pending output %d of a relayed transaction", vout))
+		}
+	}
+	r.outc[fmt.Sprintf("pending-outputs-of-wallet:%d", pendingOuts)]++
 	flags := []string{"ALL", "NONE", "SINGLE", "ALL|ANYONECANPAY", "NONE|ANYONECANPAY", "SINGLE|ANYONECANPAY"}
 	wrong := []string{"", world.PassB, "publicpassVerif1", world.PassA + "x", world.PassA[:len(world.PassA)-1], strings.ToUpper(world.PassA), "privpassA2",
 		" " + world.PassA, world.PassA + " ", world.PassA + "\n", "\t" + world.PassA, world.PassA + "\r\n", world.PassA + world.PassA}
@@ -621,15 +656,23 @@ func (r *run) sign() {
 			// independent engine run + ECDSA check per input
 			hc := txscript.NewTxSigHashes(&st)
 			for i, in := range st.TxIn {
-				ci := coins[in.PreviousOutPoint]
-				if ci == nil {
+				var pk []byte
+				var val int64
+				var prevHeight uint64
+				if ci := coins[in.PreviousOutPoint]; ci != nil {
+					pk, val, prevHeight = ci.c.Pk, ci.c.Value, ci.c.Height
+				} else if ptx := r.w.Pend.Txs[in.PreviousOutPoint.Hash]; ptx != nil && int(in.PreviousOutPoint.Index) < len(ptx.TxOut) {
+					// output of a pending transaction: it can be mined in the next block at the earliest
+					o := ptx.TxOut[in.PreviousOutPoint.Index]
+					pk, val, prevHeight = o.PkScript, o.Value, l.Height+1
+				} else {
 					continue
 				}
 				vf := txscript.StandardVerifyFlags
-				if forks.EnforceMASSIP0002WarmUp(ci.c.Height) {
+				if forks.EnforceMASSIP0002WarmUp(prevHeight) {
 					vf |= txscript.ScriptMASSip2
 				}
-				vm, err := txscript.NewEngine(ci.c.Pk, &st, i, vf, nil, hc, ci.c.Value)
+				vm, err := txscript.NewEngine(pk, &st, i, vf, nil, hc, val)
 				if err == nil {
 					err = vm.Execute()
 				}
